@@ -471,7 +471,7 @@ type choice struct {
 func partD(e *env) {
 	run := e.run
 	depth := run.Pick(5, 7)
-	budget := run.Pick(60000, 110000)
+	budget := run.Pick(60000, 80000)
 	for _, byz := range []int{3, 1} {
 		w := e.world(run.Rng.Fork(), seqN(4))
 		s := newSim(w, 4, byz, nil, lightFor(w))
